@@ -93,6 +93,14 @@
 // On any construct outside the subset the tool prints a message, exits with status 2 and
 // leaves the function (and its callers) out of <outfile>, so that the theorems about it stop elaborating and no stale
 // translation survives.
+//
+// # Round 3
+//
+// round3.go extends the subset for the sequential reader (`DataReader.next`, `zeroUntilEnd`, `endOfLog`,
+// `Truncate`): assigned / written receiver fields, receiver fields behind one more pointer, bool and
+// []byte receiver fields, `range` loops over bytes, calls of translated functions with loops (in `if`
+// conditions), join points, bool / nil-able pointer results, `x = append(x, e...)`; the hooks in this file
+// are marked `(round 3)`.  See NOTES.md, "Round 3".
 package main
 
 import (
@@ -145,6 +153,11 @@ var whitelist = []spec{
 	{pkg: "datafile", fn: "DecodeHintRecord"},
 	{pkg: "datafile", recv: "DataFile", fn: "Size"},
 	{pkg: "datafile", recv: "DataFile", fn: "readToBuf", fuel: []string{"file.size + 1"}},
+	// round 3 (loop 1 of zeroUntilEnd is a range loop: structural recursion on the length, no fuel)
+	{pkg: "datafile", recv: "DataFile", fn: "zeroUntilEnd", fuel: []string{"fileSize.toNat + 1"}},
+	{pkg: "datafile", recv: "DataReader", fn: "endOfLog"},
+	{pkg: "datafile", recv: "DataReader", fn: "next", fuel: []string{"file.size + 1"}},
+	{pkg: "datafile", recv: "DataFile", fn: "Truncate"},
 	{pkg: "index", fn: "nextPowerOfTwo"},
 	{pkg: "fio", recv: "MMap", fn: "remap", slice: &sliceSpec{assignTo: "m.endOff", lean: "remap_endOff", guard: "remap_covered"}},
 	// round 3b (dt.go): the redis-layer codecs of datatype/meta.go
@@ -177,11 +190,12 @@ var (
 // M_DATA a []byte parameter, tmps fresh variables that occur nowhere else in the function
 // (checked on go/types objects), `writes` a []byte variable that the statements overwrite.
 type effect struct {
-	name    string
-	pattern string   // Go statements
-	tmps    []string // metavariables that must be variables used only inside the match
-	writes  string   // metavariable: a []byte variable (local or parameter) written by the statements
-	apply   func(t *tr, b map[string]ast.Node, o *out, ind string)
+	name     string
+	pattern  string   // Go statements
+	tmps     []string // metavariables that must be variables used only inside the match
+	writes   string   // metavariable: a []byte variable (local or parameter) written by the statements
+	usesFile bool     // reads the abstract parameter `file` (the bytes behind M_RECV's / M_RW's ReadWriter)
+	apply    func(t *tr, b map[string]ast.Node, o *out, ind string)
 }
 
 var effects = []effect{
@@ -252,19 +266,54 @@ defer putBuf(M_B)`,
 		pattern: `if _, M_ERR := M_RECV.ReadWriter.Read(M_B[M_LO:M_HI], M_OFF); M_ERR != nil {
 	return M_ERR
 }`,
-		tmps:   []string{"M_ERR"},
-		writes: "M_B",
+		tmps:     []string{"M_ERR"},
+		writes:   "M_B",
+		usesFile: true,
+		apply:    func(t *tr, b map[string]ast.Node, o *out, ind string) { t.applyRead(b, o, ind, false) },
+	},
+	{
+		// (round 3) the same read in a function with a bool result (`zeroUntilEnd`); the error branch is dropped
+		name: "readF",
+		pattern: `if _, M_ERR := M_RECV.ReadWriter.Read(M_B[M_LO:M_HI], M_OFF); M_ERR != nil {
+	return false
+}`,
+		tmps:     []string{"M_ERR"},
+		writes:   "M_B",
+		usesFile: true,
+		apply:    func(t *tr, b map[string]ast.Node, o *out, ind string) { t.applyRead(b, o, ind, false) },
+	},
+	{
+		// (round 3) the read as a plain statement whose error variable lives on (`DataReader.next`): the read is
+		// assumed to succeed completely, so M_ERR becomes nil; the `if M_ERR != nil { … }` that follows in the
+		// Go source is translated like any other statement.  M_RW: the receiver or a struct it points to.
+		name:     "readS",
+		pattern:  `_, M_ERR := M_RW.ReadWriter.Read(M_B[M_LO:M_HI], M_OFF)`,
+		writes:   "M_B",
+		usesFile: true,
+		apply:    func(t *tr, b map[string]ast.Node, o *out, ind string) { t.applyRead(b, o, ind, true) },
+	},
+	{
+		// (round 3) the file is cut to M_SIZE bytes; the truncation is assumed to succeed (error branch dropped).
+		// The content of the file becomes a state field `file_` (initially the abstract parameter `file`) and
+		// its final value the last component of the result.
+		name: "truncate",
+		pattern: `if M_ERR := M_RECV.ReadWriter.Truncate(M_SIZE); M_ERR != nil {
+	return M_ERR
+}`,
+		tmps:     []string{"M_ERR"},
+		usesFile: true,
 		apply: func(t *tr, b map[string]ast.Node, o *out, ind string) {
-			name, cur := t.writeTarget(b["M_B"].(ast.Expr))
-			lo, hi := t.natArg(b["M_LO"].(ast.Expr)), t.natArg(b["M_HI"].(ast.Expr))
-			offx, offk := t.expr(b["M_OFF"].(ast.Expr))
-			if offk.k != kInt {
-				failAt(b["M_OFF"], "effect read: offset of kind %s", offk.goName())
+			if t.inLoop {
+				failAt(b["M_SIZE"], "effect truncate inside a loop is outside the subset")
 			}
-			t.noPending(b["M_B"])
+			x, k := t.expr(b["M_SIZE"].(ast.Expr))
+			if k.k != kInt {
+				failAt(b["M_SIZE"], "effect truncate: size of kind %s", k.goName())
+			}
+			t.noPending(b["M_SIZE"])
 			t.useAbstract(absFile)
-			off := par(offx) + ".toNat"
-			o.add(ind, "let st : "+t.leanName+".St := { st with "+name+" := putAt "+cur+" "+lo+" (file.extract "+off+" ("+off+" + ("+hi+" - "+lo+"))) }")
+			t.r3.truncated = true
+			o.add(ind, "let st : "+t.leanName+".St := { st with file_ := st.file_.extract 0 "+par(x)+".toNat }")
 		},
 	},
 }
@@ -365,6 +414,8 @@ inductive Ctl (σ ρ : Type) where
   | next (st : σ)
   | brk (st : σ)
   | ret (v : ρ)
+  /-- the fuel of a loop of a called function, or of a loop nested in the body, was exhausted: never a Go result -/
+  | fail
 
 /-- one step of a loop whose body ended with ` + "`c`" + `: run the remaining iterations ` + "`k`" + `, leave the loop
     (` + "`.inl st`" + `), or return from the function (` + "`.inr v`" + `) -/
@@ -373,6 +424,22 @@ def Ctl.step {σ ρ : Type} (c : Ctl σ ρ) (k : σ → Option (σ ⊕ ρ)) : Op
   | .next st => k st
   | .brk st => some (.inl st)
   | .ret v => some (.inr v)
+  | .fail => none
+
+/-- inside a loop body: the value of a call of a translated function that has a loop itself
+    (` + "`none`" + ` = its fuel was exhausted, which makes the whole result ` + "`none`" + `) -/
+def Ctl.call {α σ ρ : Type} (r : Option α) (k : α → Ctl σ ρ) : Ctl σ ρ :=
+  match r with
+  | none => .fail
+  | some a => k a
+
+/-- inside a loop body: what follows a nested (` + "`range`" + `) loop: ` + "`return v`" + ` inside it returns from the function,
+    otherwise the rest of the enclosing body ` + "`k`" + ` runs in the state the nested loop was left in -/
+def Ctl.sub {σ ρ : Type} (r : Option (σ ⊕ ρ)) (k : σ → Ctl σ ρ) : Ctl σ ρ :=
+  match r with
+  | none => .fail
+  | some (.inr v) => .ret v
+  | some (.inl st) => k st
 
 /-- what follows such a loop: fuel exhausted ↦ ` + "`none`" + `, ` + "`return v`" + ` inside the loop ↦ ` + "`some v`" + `, loop left in
     state st ↦ the rest of the function ` + "`k st`" + `.  (A function, not a ` + "`match`" + ` on the loop: tactics that meet
@@ -440,7 +507,7 @@ func (k kind) lean() string {
 	case kUint:
 		return "Nat"
 	case kBool:
-		return "Prop"
+		return "Bool" // parameters (receiver fields) and results; inside conditions bools are Props `(x = true)`
 	case kBytes:
 		return "ByteArray"
 	case kStruct:
@@ -756,6 +823,8 @@ func rootIdent(e ast.Expr) *ast.Ident {
 			e = v.X
 		case *ast.Ident:
 			return v
+		case *ast.SelectorExpr:
+			return v.Sel // (round 3) a []byte struct field: go/types maps the selector identifier to the field object
 		default:
 			return nil
 		}
@@ -814,7 +883,8 @@ type param struct {
 	name   string
 	k      kind
 	mut    bool   // assigned (or, for []byte, written) in the body: lives in the state structure
-	field  string // receiver field parameters: the Go field name
+	field  string // receiver field parameters: the Go field name (round 3: a path `dataFile.lastBlockID`)
+	ord    int    // receiver field parameters: position in the struct declaration (order of the result components)
 }
 
 type tr struct {
@@ -843,6 +913,8 @@ type tr struct {
 
 	written map[types.Object]bool // []byte variables that are written (index assignment, copy, write primitives, read effect)
 	pending []pendingWrite        // writes of the write primitives met in the current simple statement
+
+	r3 round3 // round 3 (round3.go): written receiver fields, nested range loops, calls of functions with loops
 }
 
 // a write primitive met while translating the expressions of a simple statement: the statement's
@@ -862,6 +934,8 @@ type fnInfo struct {
 	nparams    int // number of Go parameters (all of them must be translatable for a call)
 	results    []kind
 	callable   bool // no loop, no effects: the generated definition returns exactly the Go results
+	loopy      bool // round 3: like callable, but with a loop: the definition returns `Option results`
+	usesFile   bool // round 3: reads the file behind its receiver's ReadWriter
 }
 
 var leanReserved = map[string]bool{
@@ -878,8 +952,11 @@ var leanReserved = map[string]bool{
 	"out": true, "rv": true, "v": true, "file": true,
 }
 
+// names the translator generates itself: rng (range loops), cv<i> (hoisted calls), k<i> (join points)
+var genNameRe = regexp.MustCompile(`^(rng|cv[0-9]+|k[0-9]+)$`)
+
 func mangle(n string) string {
-	if leanReserved[n] {
+	if leanReserved[n] || genNameRe.MatchString(n) {
 		return n + "_"
 	}
 	return n
@@ -1095,6 +1172,14 @@ func (t *tr) noPending(at ast.Node) {
 
 // writeTarget: a []byte variable (local, or parameter marked as written) used as the destination of a write
 func (t *tr) writeTarget(e ast.Expr) (name string, cur string) {
+	if path, ord, ok := t.recvPath(ast.Unparen(e)); ok {
+		// (round 3) a []byte field of the receiver
+		x, k := t.recvFieldExpr(ast.Unparen(e).(*ast.SelectorExpr), path, ord)
+		if k.k != kBytes || !strings.HasPrefix(x.s, "st.") {
+			failAt(e, "write destination %s is not a written []byte field of the receiver", src(e))
+		}
+		return strings.TrimPrefix(x.s, "st."), x.s
+	}
 	id, ok := ast.Unparen(e).(*ast.Ident)
 	if !ok {
 		failAt(e, "write destination %s is not a variable", src(e))
@@ -1234,17 +1319,13 @@ func (t *tr) expr(e ast.Expr) (lx, kind) {
 		}
 		failAt(e, "identifier %s is outside the subset", v.Name)
 	case *ast.SelectorExpr:
+		// field of the receiver (round 3: also of a struct the receiver points to, `reader.dataFile.ID`;
+		// integer, bool or []byte): extra parameter, a state field when the function assigns / writes it
+		if path, ord, ok := t.recvPath(e); ok {
+			return t.recvFieldExpr(e, path, ord)
+		}
 		if id, ok := v.X.(*ast.Ident); ok {
 			obj := t.p.info.Uses[id]
-			// integer field of the receiver: extra parameter
-			if obj != nil && obj == t.recvObj {
-				ty := t.typeOfExpr(e)
-				k := t.kindOf(ty, e)
-				if !k.isInt() && k.k != kBytes { // []byte fields: dt.go (read only, like []byte parameters)
-					failAt(e, "receiver field %s is neither an integer nor a []byte", src(e))
-				}
-				return lx{s: t.recvField(v.Sel.Name, k), atom: true}, k
-			}
 			// field of a struct local
 			if i, ok := t.localByObj[obj]; ok && t.locals[i].k.k == kStruct {
 				for _, f := range t.p.structs[t.locals[i].k.name] {
@@ -1417,6 +1498,10 @@ func (t *tr) expr(e ast.Expr) (lx, kind) {
 			if len(ks) != 1 {
 				failAt(e, "call %s with %d results in a single-value context", src(e), len(ks))
 			}
+			if ks[0].k == kBool {
+				// (round 3) a Go bool is a Lean Bool as a result, a Prop inside an expression
+				return lx{s: "(" + x.s + " = true)", atom: true}, ks[0]
+			}
 			return x, ks[0]
 		}
 		failAt(e, "call %s is neither a conversion, a supported builtin, in the primitive table, nor a translated function", src(e))
@@ -1465,14 +1550,38 @@ func (t *tr) isErr(e ast.Expr) bool {
 
 // recvField: the extra parameter standing for an integer field of the receiver
 func (t *tr) recvField(fieldName string, k kind) string {
-	name := mangle(t.recvName + "_" + fieldName)
+	return t.recvFieldOrd(fieldName, k, 0)
+}
+
+// (round 3) fieldName may be a path `dataFile.lastBlockID`; the result is the Lean reference: the
+// parameter itself, or `st.<name>` when the function assigns the field (integer) or writes it ([]byte)
+func (t *tr) recvFieldOrd(fieldName string, k kind, ord int) string {
+	name := mangle(t.recvName + "_" + strings.ReplaceAll(fieldName, ".", "_"))
+	ref := func(p param) string {
+		if p.mut {
+			return "st." + p.name
+		}
+		return p.name
+	}
 	for _, rf := range t.recvFields {
 		if rf.name == name {
-			return name
+			if rf.field != fieldName {
+				failAt(t.fd, "receiver fields %s and %s get the same Lean name", rf.field, fieldName)
+			}
+			return ref(rf)
 		}
 	}
-	t.recvFields = append(t.recvFields, param{goName: t.recvName + "." + fieldName, name: name, k: k, field: fieldName})
-	return name
+	for _, p := range t.params {
+		if p.name == name {
+			failAt(t.fd, "receiver field %s clashes with parameter %s", fieldName, p.goName)
+		}
+	}
+	if t.localNames[name] {
+		failAt(t.fd, "receiver field %s clashes with a local", fieldName)
+	}
+	p := param{goName: t.recvName + "." + fieldName, name: name, k: k, field: fieldName, ord: ord, mut: t.r3.recvMut[fieldName] || t.r3.recvWritten[fieldName]}
+	t.recvFields = append(t.recvFields, p)
+	return ref(p)
 }
 
 // tuple projection of an n-tuple `a × b × c`
@@ -1521,6 +1630,8 @@ func (t *tr) call(v *ast.CallExpr) (lx, []kind, bool) {
 	// a function / a method on the same receiver, translated earlier
 	var fobj *types.Func
 	onRecv := false
+	sub := "" // (round 3) the callee's receiver is the struct behind this pointer field path of our receiver
+	var recvExpr ast.Expr
 	switch f := v.Fun.(type) {
 	case *ast.Ident:
 		fobj, _ = t.p.info.Uses[f].(*types.Func)
@@ -1528,6 +1639,12 @@ func (t *tr) call(v *ast.CallExpr) (lx, []kind, bool) {
 		if id, ok := f.X.(*ast.Ident); ok && t.recvObj != nil && t.p.info.Uses[id] == t.recvObj {
 			fobj, _ = t.p.info.Uses[f.Sel].(*types.Func)
 			onRecv = true
+			recvExpr = f.X
+		} else if path, ok := t.recvPtrPath(f.X); ok {
+			fobj, _ = t.p.info.Uses[f.Sel].(*types.Func)
+			onRecv = true
+			sub = path + "."
+			recvExpr = f.X
 		}
 	}
 	if fobj == nil || fobj.Pkg() != t.p.tpkg {
@@ -1554,8 +1671,11 @@ func (t *tr) call(v *ast.CallExpr) (lx, []kind, bool) {
 	if fi == nil {
 		failAt(v, "call of %s, which is not translated (it must precede %s in the whitelist)", key, t.fd.Name.Name)
 	}
-	if !fi.callable || len(fi.params) != fi.nparams || len(v.Args) != fi.nparams || v.Ellipsis != token.NoPos {
-		failAt(v, "call of %s: only functions without loops, effects and untranslatable parameters can be called", key)
+	if !(fi.callable || fi.loopy) || len(fi.params) != fi.nparams || len(v.Args) != fi.nparams || v.Ellipsis != token.NoPos {
+		failAt(v, "call of %s: only functions without effects on their output / receiver and without untranslatable parameters can be called", key)
+	}
+	if fi.usesFile {
+		t.setFileOwner(recvExpr, v) // the callee reads the file of ITS receiver
 	}
 	var parts []string
 	parts = append(parts, fi.leanName)
@@ -1564,10 +1684,20 @@ func (t *tr) call(v *ast.CallExpr) (lx, []kind, bool) {
 		parts = append(parts, a.name)
 	}
 	for _, rf := range fi.recvFields {
-		parts = append(parts, t.recvField(rf.field, rf.k))
+		ord := rf.ord
+		if sub != "" {
+			_, subOrd, _ := t.recvChain(recvExpr)
+			ord = subOrd + rf.ord/1000 // the callee's field, seen from our receiver
+		}
+		parts = append(parts, t.recvFieldOrd(sub+rf.field, rf.k, ord))
 	}
 	for i, p := range fi.params {
 		parts = append(parts, par(t.exprWant(v.Args[i], p.k)))
+	}
+	if fi.loopy {
+		// (round 3) the callee has a loop: its value is `Option …`; the call is evaluated in front of the
+		// enclosing `if` and bound to a variable (hoistCalls)
+		return t.hoistCall(v, key, strings.Join(parts, " ")), fi.results, true
 	}
 	if len(parts) == 1 {
 		return lx{s: parts[0], atom: true}, fi.results, true
@@ -1586,6 +1716,9 @@ func (t *tr) aliasRoots(e ast.Expr) []*ast.Ident {
 	case *ast.SliceExpr:
 		return t.aliasRoots(v.X)
 	case *ast.SelectorExpr:
+		if _, _, ok := t.recvPath(v); ok {
+			return []*ast.Ident{v.Sel} // (round 3) a []byte field of the receiver: the field object
+		}
 		if id, ok := v.X.(*ast.Ident); ok {
 			return []*ast.Ident{id}
 		}
@@ -1701,6 +1834,7 @@ func (t *tr) checkAlias(lhs *ast.Ident, rhs ast.Expr, define bool, rest []ast.St
 	if t.written[obj] && len(roots) > 0 {
 		failAt(lhs, "the written buffer %s is assigned from %s, which is not fresh (aliasing is outside the subset)", lhs.Name, src(rhs))
 	}
+	roots = t.expandViews(lhs, obj, roots) // (round 3) views of views; append targets must not be aliased
 	for _, r := range roots {
 		robj := t.p.info.Uses[r]
 		if !t.written[robj] {
@@ -1777,6 +1911,15 @@ func (t *tr) lvalue(e ast.Expr) (name string, k kind, upd func(rhs string) strin
 			return p.name, p.k, func(r string) string { return p.name + " := " + r }, lx{s: "st." + p.name, atom: true}
 		}
 	case *ast.SelectorExpr:
+		if path, ord, ok := t.recvPath(v); ok {
+			// (round 3) assignment to an integer field of the receiver: a state field, part of the result
+			x, fk := t.recvFieldExpr(v, path, ord)
+			if !fk.isInt() || !strings.HasPrefix(x.s, "st.") {
+				failAt(e, "assignment to the receiver field %s of kind %s is outside the subset", src(e), fk.goName())
+			}
+			fname := strings.TrimPrefix(x.s, "st.")
+			return fname, fk, func(r string) string { return fname + " := " + r }, x
+		}
 		if id, ok := v.X.(*ast.Ident); ok {
 			if i, ok := t.localByObj[t.p.info.Uses[id]]; ok && t.locals[i].k.k == kStruct {
 				l := t.locals[i]
@@ -1890,6 +2033,12 @@ func (t *tr) tryEffect(list []ast.Stmt, i int, o *out, ind string) int {
 				failAt(list[i], "effect %s: %s is not the receiver", ef.name, src(m))
 			}
 		}
+		if m, ok := b["M_RW"]; ok {
+			// (round 3) the struct that owns the ReadWriter: the receiver, or a struct the receiver points to
+			t.setFileOwner(m.(ast.Expr), list[i])
+		} else if ef.usesFile {
+			t.setFileOwner(b["M_RECV"].(ast.Expr), list[i])
+		}
 		if m, ok := b["M_DATA"]; ok {
 			id, isId := m.(*ast.Ident)
 			pi, isParam := t.paramByObj[t.p.info.Uses[id]]
@@ -1984,6 +2133,13 @@ func (t *tr) simple(s ast.Stmt, o *out, ind string, rest []ast.Stmt) bool {
 		flush()
 		return true
 	case *ast.AssignStmt:
+		if name, rhs, ok := t.appendStmt(v); ok {
+			// (round 3) x = append(x, e...) on an append-only []byte local
+			t.noPending(s)
+			addUpd(name, name+" := "+rhs)
+			flush()
+			return true
+		}
 		switch {
 		case len(v.Rhs) == 1 && len(v.Lhs) > 1:
 			// a, b := f(…) / a, b = f(…): a call of the primitive table or of a translated function
@@ -2253,6 +2409,12 @@ func (t *tr) retInner(vals []string) (string, bool) {
 			r, atom = "("+r+", st.out)", true
 		}
 	}
+	if len(t.r3.recvMut) > 0 {
+		r, atom = "("+r+", @RECVOUT@)", true // (round 3) final values of the assigned receiver fields
+	}
+	if t.r3.truncated {
+		r, atom = "("+r+", st.file_)", true // (round 3) the content of the file after the function
+	}
 	return r, atom
 }
 
@@ -2288,7 +2450,7 @@ func (t *tr) terminal(list []ast.Stmt, o *out, ind string, top bool) {
 			t.pending = nil
 			var vals []string
 			for j, r := range v.Results {
-				vals = append(vals, t.exprWant(r, t.results[j]).s)
+				vals = append(vals, t.resultVal(r, j)) // (round 3: bool results, nil-able pointer results)
 			}
 			t.noPending(s)
 			if t.inLoop {
@@ -2330,12 +2492,15 @@ func (t *tr) terminal(list []ast.Stmt, o *out, ind string, top bool) {
 			if v.Init != nil {
 				failAt(s, "if with an init statement is outside the subset")
 			}
-			c := t.cond(v.Cond)
+			// (round 3) calls of translated functions with loops in the condition are evaluated first
+			c, ind := t.condHoisted(v.Cond, o, ind)
 			rest := list[i:]
 			el := elseList(v.Else)
 			bodyT, elseT := terminates(v.Body.List), terminates(el)
 			if !bodyT && !elseT && len(rest) > 0 {
-				failAt(s, "if with a return on some path whose branches both continue is outside the subset")
+				// (round 3) both branches continue: the continuation becomes a local function (join point)
+				t.joinPoint(c, v.Body.List, el, rest, o, ind)
+				return
 			}
 			// locals declared in the continuation are declared once: translate the continuation
 			// only in the branch that does not terminate
@@ -2362,9 +2527,16 @@ func (t *tr) terminal(list []ast.Stmt, o *out, ind string, top bool) {
 			}
 			t.loop(v, o, ind)
 			ind += "  "
+		case *ast.RangeStmt:
+			t.rangeLoop(v, o, ind) // (round 3) `for i, b := range bytes`, also directly inside a `for` body
+			ind += "  "
 		default:
 			failAt(s, "statement %T is outside the subset: %s", s, src(s))
 		}
+	}
+	if t.r3.fallK != "" {
+		o.add(ind, t.r3.fallK) // (round 3) the end of a branch in front of a join point
+		return
 	}
 	if t.inLoop {
 		o.add(ind, ".next st") // the end of the body: next iteration
@@ -2388,8 +2560,11 @@ func (t *tr) loop(v *ast.ForStmt, o *out, ind string) {
 			if x.Label != nil || (x.Tok != token.BREAK && x.Tok != token.CONTINUE) {
 				bad = "goto / labelled branch"
 			}
-		case *ast.ForStmt, *ast.RangeStmt:
+		case *ast.ForStmt:
 			bad = "nested loop"
+		case *ast.RangeStmt:
+			// (round 3) a range loop over bytes directly in the body is translated by rangeLoop, which
+			// checks its own body; `break` / `continue` inside it belong to it
 		case *ast.LabeledStmt:
 			bad = "label"
 		case *ast.SwitchStmt, *ast.TypeSwitchStmt, *ast.SelectStmt:
@@ -2421,6 +2596,7 @@ func (t *tr) loop(v *ast.ForStmt, o *out, ind string) {
 		body := &out{}
 		t.transform(v.Body.List, body, "  ")
 		// the helper text is finished in function(): parameter lists depend on which parameters occur
+		t.r3.loopIdx = append(t.r3.loopIdx, idx)
 		t.loops = append(t.loops, strings.Join([]string{
 			"/-- body of loop " + fmt.Sprint(idx) + " of `" + t.fd.Name.Name + "` (`for " + condSrc + "{ … }`) -/",
 			"def " + bodyName + " @PARAMS@(st : " + stName + ") : " + stName + " :=",
@@ -2441,9 +2617,12 @@ func (t *tr) loop(v *ast.ForStmt, o *out, ind string) {
 	}
 	// loop with return / break / continue in its body (or without condition): the body yields a Ctl
 	body := &out{}
+	savedK := t.r3.fallK
+	t.r3.fallK = "" // the end of the loop body is the next iteration, not an enclosing join point
 	t.inLoop = true
 	t.terminal(v.Body.List, body, "  ", false)
 	t.inLoop = false
+	t.r3.fallK = savedK
 	lines := []string{
 		"/-- body of loop " + fmt.Sprint(idx) + " of `" + t.fd.Name.Name + "` (`for " + condSrc + "{ … }`): next iteration, `break`, or `return v` -/",
 		"def " + bodyName + " @PARAMS@(st : " + stName + ") : Ctl " + stName + " (@RT@) :=",
@@ -2463,6 +2642,7 @@ func (t *tr) loop(v *ast.ForStmt, o *out, ind string) {
 	} else {
 		lines = append(lines, "    "+step)
 	}
+	t.r3.loopIdx = append(t.r3.loopIdx, idx)
 	t.loops = append(t.loops, strings.Join(lines, "\n"))
 	o.add(ind, "Ctl.after ("+loopName+" @ARGS"+fmt.Sprint(idx)+"@("+t.sp.fuel[idx]+") st) fun st =>")
 }
@@ -2512,6 +2692,7 @@ func (t *tr) setup(fd *ast.FuncDecl) {
 		}
 		return true
 	})
+	t.r3init(fd) // (round 3) which receiver fields are assigned?
 	// which []byte variables are written (through an index assignment, copy, a write primitive or
 	// an effect of the table)?
 	ast.Inspect(fd.Body, func(n ast.Node) bool {
@@ -2610,6 +2791,10 @@ func (t *tr) rangeDoc() string {
 			parts = append(parts, fmt.Sprintf("-2^63 ≤ %s < 2^63", p.name))
 		case -1:
 			parts = append(parts, p.field)
+		case kBytes:
+			if p.field != "" && p.mut { // (round 3) a []byte receiver field the function writes
+				parts = append(parts, p.name+" = content of "+p.goName+" at entry (unspecified; the final content is not part of the result)")
+			}
 		case kStruct:
 			for _, f := range t.p.structs[p.k.name] {
 				if f.k.k == kUint {
@@ -2639,6 +2824,7 @@ func (t *tr) function() string {
 		}
 		return true
 	})
+	t.r3results() // (round 3) nil-able pointer results; range loops and calls of functions with loops also give `Option`
 	// effects are discovered while translating; a first dry pass finds out whether there are any
 	// (the result shape depends on it)
 	dry := *t
@@ -2652,6 +2838,7 @@ func (t *tr) function() string {
 	dry.abstract = append([]absParam{}, t.abstract...)
 	dry.terminal(fd.Body.List, &out{}, "  ", true)
 	t.hasEffects, t.hasOut = dry.hasEffects, dry.hasOut
+	t.r3.truncated = dry.r3.truncated // (round 3) known before the real pass: every return carries the file
 	if t.hasEffects && t.hasOut {
 		failAt(fd, "segment effects and byte-append effects in one function are outside the subset")
 	}
@@ -2661,6 +2848,9 @@ func (t *tr) function() string {
 
 	o := &out{}
 	t.terminal(fd.Body.List, o, "  ", true)
+	// (round 3) receiver field parameters in declaration order, not first-use order: the signature of the
+	// generated definition does not change when statements are reordered
+	sort.SliceStable(t.recvFields, func(i, j int) bool { return t.recvFields[i].ord < t.recvFields[j].ord })
 
 	all := t.allParams()
 	stName := t.leanName + ".St"
@@ -2673,6 +2863,11 @@ func (t *tr) function() string {
 			flds = append(flds, fld{p.name, p.k.lean(), p.name, "parameter (" + p.k.goName() + ")"})
 		}
 	}
+	for _, p := range t.recvFields {
+		if p.mut { // (round 3)
+			flds = append(flds, fld{p.name, p.k.lean(), p.name, "receiver field " + p.goName + " (" + p.k.goName() + "), assigned / written by the function"})
+		}
+	}
 	for _, l := range t.locals {
 		flds = append(flds, fld{l.name, l.k.lean(), zero(t, l.k), l.k.goName()})
 	}
@@ -2681,6 +2876,9 @@ func (t *tr) function() string {
 	}
 	if t.hasOut {
 		flds = append(flds, fld{"out", "ByteArray", "ByteArray.empty", "bytes appended to the output buffer so far"})
+	}
+	if t.r3.truncated {
+		flds = append(flds, fld{"file_", "ByteArray", "file", "content of the file behind the receiver's ReadWriter (cut by the truncate effect)"})
 	}
 	fmt.Fprintf(&sb, "/-- mutable locals of `%s` -/\n", fd.Name.Name)
 	fmt.Fprintf(&sb, "structure %s where\n", stName)
@@ -2693,8 +2891,12 @@ func (t *tr) function() string {
 	sb.WriteString("\n")
 	// result type
 	var rts []string
-	for _, r := range t.results {
-		rts = append(rts, r.lean())
+	for j, r := range t.results {
+		if t.r3.optRes[j] {
+			rts = append(rts, "Option "+r.lean()) // (round 3) a pointer result for which some return says nil
+		} else {
+			rts = append(rts, r.lean())
+		}
 	}
 	rt := strings.Join(rts, " × ")
 	if len(rts) == 0 {
@@ -2716,10 +2918,22 @@ func (t *tr) function() string {
 			rt += " × ByteArray"
 		}
 	}
+	// (round 3) the final values of the assigned receiver fields are the last components of the result
+	recvOut, recvOutTy, recvOutDoc := t.recvOuts()
+	if len(recvOut) > 0 {
+		rt = "(" + rt + ") × " + strings.Join(recvOutTy, " × ")
+	}
+	if t.r3.truncated {
+		rt = "(" + rt + ") × ByteArray"
+	}
 	// loop helpers: only the parameters that occur
 	argsFor := map[int][]param{}
 	for i, l := range t.loops {
 		l = strings.ReplaceAll(l, "@RT@", rt)
+		l = strings.ReplaceAll(l, "@RECVOUT@", strings.Join(recvOut, ", "))
+		for j := 0; j < i; j++ { // (round 3) a nested loop precedes the loop that contains it
+			l = strings.ReplaceAll(l, "@ARGS"+fmt.Sprint(t.r3.loopIdx[j])+"@", argsOf(argsFor[j]))
+		}
 		var used []param
 		for _, p := range all {
 			// (assigned parameters live in the state: the helpers reach them through `st.`)
@@ -2734,11 +2948,13 @@ func (t *tr) function() string {
 	}
 	body := strings.Join(o.lines, "\n")
 	for i := range t.loops {
-		body = strings.ReplaceAll(body, "@ARGS"+fmt.Sprint(i)+"@", argsOf(argsFor[i]))
+		body = strings.ReplaceAll(body, "@ARGS"+fmt.Sprint(t.r3.loopIdx[i])+"@", argsOf(argsFor[i]))
 	}
+	body = strings.ReplaceAll(body, "@RECVOUT@", strings.Join(recvOut, ", "))
 	if t.hasLoop {
 		rt = "Option (" + rt + ")"
 	}
+	body = strings.ReplaceAll(body, "@FRT@", rt)
 	var inits []string
 	for _, f := range flds {
 		inits = append(inits, f.name+" := "+f.init)
@@ -2767,6 +2983,12 @@ func (t *tr) function() string {
 	if t.hasOut {
 		sb.WriteString("\n    the last component of the result is the byte string appended to the output buffer")
 	}
+	if len(recvOut) > 0 {
+		sb.WriteString("\n    result = (Go results, final values of the assigned receiver fields " + strings.Join(recvOutDoc, ", ") + ")")
+	}
+	if t.r3.truncated {
+		sb.WriteString("\n    the last component of the result is the content of the file after the function")
+	}
 	sb.WriteString(" -/\n")
 	fmt.Fprintf(&sb, "def %s %s: %s :=\n", t.leanName, declOf(all), rt)
 	if len(flds) > 0 {
@@ -2791,8 +3013,9 @@ func (t *tr) function() string {
 			anyMut = true // writes into a caller's buffer: the effect is not part of the result
 		}
 	}
+	pure := !t.hasEffects && !t.hasOut && !anyMut && len(t.results) > 0 && t.r3pure()
 	t.p.fns[key] = &fnInfo{leanName: t.leanName, abstract: t.abstract, recvFields: t.recvFields, params: t.params,
-		nparams: nparams, results: t.results, callable: !t.hasLoop && !t.hasEffects && !t.hasOut && !anyMut && len(t.results) > 0}
+		nparams: nparams, results: t.results, callable: !t.hasLoop && pure, loopy: t.hasLoop && pure, usesFile: t.usesFile()}
 	return sb.String()
 }
 
@@ -2817,6 +3040,7 @@ func copyMap(m map[types.Object]int) map[types.Object]int {
 func (t *tr) sliceFn() string {
 	fd := t.fd
 	sl := t.sp.slice
+	t.r3.recvMut = map[string]bool{} // slice mode has no state: receiver fields are the values at entry
 	for _, p := range t.params {
 		if p.mut {
 			failAt(fd, "slice mode: parameter %s is assigned in the function", p.goName)
@@ -2972,11 +3196,12 @@ func main() {
 	sb.WriteString("/- GENERATED by harness/cmd/trans from the Go sources on every run -- do not edit.\n")
 	sb.WriteString("   Mechanical translation of whitelisted Go functions; see harness/cmd/trans/main.go for the\n")
 	sb.WriteString("   Go subset, the effect / primitive tables and the integer semantics.  The equalities with the\n")
-	sb.WriteString("   hand-written model are proved in XixiKV/Proofs/TransEq.lean and TransEq2.lean. -/\n")
+	sb.WriteString("   hand-written model are proved in XixiKV/Proofs/TransEq*.lean (rounds 1 to 3). -/\n")
 	for _, m := range failures {
 		fmt.Fprintf(&sb, "/- NOT TRANSLATED: %s -/\n", strings.ReplaceAll(m, "-/", "- /"))
 	}
 	sb.WriteString("namespace XixiKV.Generated.Trans\n\n")
+	sb.WriteString("set_option linter.unusedVariables false -- (`fun st => some true` after a loop whose state is not used again)\n\n")
 	sb.WriteString(prelude)
 	sb.WriteString(dtPrelude) // dt.go
 	for _, dir := range order {
